@@ -37,5 +37,12 @@ for sid in ids:
     meta["detection_detail"] = fired
     json.dump(meta, open(os.path.join(d, "meta.json"), "w"), indent=1)
     own = meta["property"] in fired
+    # a change seeded for property X that, read strictly, breaks property Y and not X (judged by hand, reason recorded in
+    # meta["reclassified"]): detection is then expected from Y, and X must stay silent only if X really holds
+    recl = meta.get("reclassified")
+    if not own and recl and any(c in fired for c in recl["properties"]):
+        summary[sid] = (True, sorted(fired))
+        print("%-10s seeded-for(%s) DETECTED via %s (reclassified: %s)   fired: %s" % (sid, meta["property"], [c for c in recl["properties"] if c in fired], recl["reason"][:80], sorted(fired)))
+        continue
     summary[sid] = (own, sorted(fired))
     print("%-10s own-property(%s) %s   fired: %s" % (sid, meta["property"], "DETECTED" if own else ("missed" if meta["property"] in checks else "n/a-yet"), sorted(fired)))
